@@ -163,6 +163,10 @@ def _decorate_namespace_function(
         base_postconditions = []  # type: List[Contract]
 
         bases_have_func = False
+
+        # A base which has the function, but specifies no preconditions for it, accepts all possible input.
+        some_base_accepts_all = False
+
         for base in bases:
             if hasattr(base, key):
                 bases_have_func = True
@@ -178,6 +182,17 @@ def _decorate_namespace_function(
                         base_contract_checker.__postcondition_snapshots__
                     )
                     base_postconditions.extend(base_contract_checker.__postconditions__)
+
+                    if not base_contract_checker.__preconditions__:
+                        some_base_accepts_all = True
+                else:
+                    some_base_accepts_all = True
+
+        if some_base_accepts_all and base_preconditions:
+            # The preconditions are OR'ed. Since one of the bases accepts all possible input, so must
+            # this function, regardless of the preconditions of the other bases and its own preconditions.
+            base_preconditions = []
+            preconditions = []
 
         # Collapse preconditions and postconditions from the bases with the function's own ones
         preconditions = _collapse_preconditions(
@@ -195,7 +210,7 @@ def _decorate_namespace_function(
             base_postconditions=base_postconditions, postconditions=postconditions
         )
 
-    if preconditions or postconditions:
+    if preconditions or postconditions or contract_checker is not None:
         if contract_checker is None:
             contract_checker = icontract._checkers.decorate_with_checker(func=func)
 
@@ -242,6 +257,10 @@ def _decorate_namespace_property(
         base_postconditions = []  # type: List[Contract]
 
         bases_have_func = False
+
+        # A base which has the function, but specifies no preconditions for it, accepts all possible input.
+        some_base_accepts_all = False
+
         for base in bases:
             if hasattr(base, key):
                 base_property = getattr(base, key)
@@ -278,6 +297,11 @@ def _decorate_namespace_property(
                     )
                     base_postconditions.extend(base_contract_checker.__postconditions__)
 
+                    if not base_contract_checker.__preconditions__:
+                        some_base_accepts_all = True
+                else:
+                    some_base_accepts_all = True
+
         # Add preconditions and postconditions of the function
         preconditions = []  # type: List[List[Contract]]
         snapshots = []  # type: List[Snapshot]
@@ -288,6 +312,12 @@ def _decorate_namespace_property(
             preconditions = contract_checker.__preconditions__  # type: ignore
             snapshots = contract_checker.__postcondition_snapshots__  # type: ignore
             postconditions = contract_checker.__postconditions__  # type: ignore
+
+        if some_base_accepts_all and base_preconditions:
+            # The preconditions are OR'ed. Since one of the bases accepts all possible input, so must
+            # this function, regardless of the preconditions of the other bases and its own preconditions.
+            base_preconditions = []
+            preconditions = []
 
         preconditions = _collapse_preconditions(
             base_preconditions=base_preconditions,
@@ -304,7 +334,7 @@ def _decorate_namespace_property(
             base_postconditions=base_postconditions, postconditions=postconditions
         )
 
-        if preconditions or postconditions:
+        if preconditions or postconditions or contract_checker is not None:
             if contract_checker is None:
                 contract_checker = icontract._checkers.decorate_with_checker(func=func)
 
